@@ -13,6 +13,7 @@ type vTimer struct {
 	fired   bool
 	due     int64
 	seq     int
+	kind    int // step harness: 1 recovery timer, 2 delayed switch
 }
 
 func (t *vTimer) Reset(time.Duration) bool { return true }
@@ -183,8 +184,8 @@ func VerifH_me() {
 			if firedSwitch {
 				// the delayed switch is outdated when its target is no longer the best choice
 				fe, ok := m.endpoints[m.future]
-				ce, cok := m.endpoints[m.current]
-				firedOutdated = ok && cok && fe.status == available && ce.status == available && fe.priority > ce.priority
+				ta := v0.topAvail()
+				firedOutdated = ok && fe.status == available && (ta == vE || m.future != vName(ta))
 			}
 			verifKnown("F-switch", firedOutdated)
 			outdatedSwitch = outdatedSwitch || firedOutdated
@@ -257,7 +258,6 @@ func VerifH_me() {
 			e := repE % vE
 			switch {
 			case !repAvail && v0.status[e] == available && r > 0:
-				verifReach("recovery window opened")
 				verifAssert(v1.status[e] == recovering, "C14: endpoint reported unavailable is not recovering")
 				verifAssert(len(vTimers) == timers0+1 && vTimers[len(vTimers)-1].d == r && vTimers[len(vTimers)-1].due >= now0+int64(r) && vTimers[len(vTimers)-1].due <= vNow+int64(r), "C14: recovery timer not scheduled for the recovery timeout")
 				if v0.cur == e && (top1 == vE || v1.prio[top1] > v1.prio[e]) {
